@@ -523,14 +523,18 @@ def rules(repo=None):
 
 
 EXPLANATION = (
-    "R1: package call graph (self/super/module/imported-name/constructor-bound receivers resolved; name-only edges marked "
-    "imprecise) from every public method of DigitalRFReader, DigitalMetadataReader, the per-directory helpers, ilsdrf/lsdrf, "
-    "util.* and get_unix_time to every os/shutil mutator, write-mode open and non-'r' h5py.File; a mutator whose path has "
-    "constant provenance under /tmp in the feasible partition of self._local is the permitted scratch copy; a finding is keyed "
-    "by callee, enclosing handler types, explicit raisers of the handled type inside the guarded region and the owning class. R2: every "
-    "h5py.File of the metadata writer is a `with` context; the file-holding generator is exhausted before _write returns. "
-    "R3: no reader method other than __init__ stores on self. R4: read_latest = get_bounds + read(last, ffill). R5/R6: the "
-    "forward-fill range filter and numeric key ordering it depends on (shared with C12). R7: every memoising reader method keys its memo by all arguments the memoised value depends on (def-use slice). Does NOT decide HDF5 visibility.")
+    'R1: package call graph (self/super/module/imported-name/constructor-bound receivers resolved; name-only edges marked'
+    ' imprecise) from every public method of DigitalRFReader, DigitalMetadataReader, the per-directory helpers, '
+    "ilsdrf/lsdrf, util.* and get_unix_time to every os/shutil mutator, write-mode open and non-'r' h5py.File; a mutator "
+    'whose path has constant provenance under /tmp in the feasible partition of self._local is the permitted scratch '
+    'copy; a finding is keyed by callee, enclosing handler types, explicit raisers of the handled type inside the guarded'
+    ' region and the owning class. R2: every h5py.File of the metadata writer is a `with` context; the file-holding '
+    'generator is exhausted before _write returns. R3: no reader method other than __init__ stores on self. R4: '
+    'read_latest = get_bounds + read(last, ffill). R5/R6: the forward-fill range filter and numeric key ordering it '
+    'depends on (shared with C12). R7: every memoising reader method keys its memo by all arguments the memoised value '
+    'depends on (def-use slice). R7 also: the dependence closure of a memoised value is cut at the names of its key, and '
+    'a value chosen by a loop under a file-system probe needs the chosen loop element in the key. Does NOT decide HDF5 '
+    'visibility.')
 TECHNIQUE = ('Python ast; package call graph with provenance partition of paths; context-manager/generator exhaustion; store-on-self table')
 ASSUMPTIONS = ["zip() pulls from its first iterable first", "h5py's default file mode is 'r'",
                "the mutator table (vp.pycalls.MUTATORS) is complete for the standard library calls this package uses"]
